@@ -74,6 +74,11 @@ func buildPrelude(u *Universe) (*Prelude, error) {
 			}
 			env := &TrEnv{x: gx, st: st, bound: map[string]*Term{}, lets: map[string]*Term{}}
 			env.old = env
+			if f.Pkg != "" {
+				if pk, ok := u.Pkgs[f.Pkg]; ok {
+					env.pkg = pk.Types
+				}
+			}
 			for i, pn := range f.Params {
 				env.bound[pn] = V(pn, f.PSorts[i])
 			}
@@ -402,8 +407,9 @@ func (p *Prelude) buildQuery(o *Obligation, wantModel bool, sizeCap int) string 
 			hdr.Reset()
 		}
 	}
+	var constDecl strings.Builder
 	for _, name := range sortedKeys(consts) {
-		fmt.Fprintf(&hdr, "(declare-const %s %s)\n", name, pr.sort(consts[name]))
+		fmt.Fprintf(&constDecl, "(declare-const %s %s)\n", name, pr.sort(consts[name]))
 	}
 	// type constants are pairwise distinct
 	var tcs []string
@@ -413,7 +419,7 @@ func (p *Prelude) buildQuery(o *Obligation, wantModel bool, sizeCap int) string 
 		}
 	}
 	if len(tcs) > 1 {
-		fmt.Fprintf(&hdr, "(assert (distinct %s))\n", strings.Join(tcs, " "))
+		fmt.Fprintf(&constDecl, "(assert (distinct %s))\n", strings.Join(tcs, " "))
 	}
 
 	// body ------------------------------------------------------------------
@@ -482,6 +488,7 @@ func (p *Prelude) buildQuery(o *Obligation, wantModel bool, sizeCap int) string 
 	var q strings.Builder
 	q.WriteString(hdr1)
 	q.WriteString(lits.String())
+	q.WriteString(constDecl.String())
 	q.WriteString(hdr.String())
 	q.WriteString(litFacts.String())
 	q.WriteString(body.String())
